@@ -47,6 +47,11 @@ fn analyse(c: &Case) -> Dump {
     hist::dump_full(&a)
 }
 
+/// which of two runs shows a line and which does not is arbitrary: the signature has no direction
+fn nondet_sig(diffs: &[crate::oracle::dump::Diff]) -> String {
+    format!("nondet:{}", classify(diffs)).replace(":added", ":presence").replace(":removed", ":presence")
+}
+
 fn dump_from_text(t: &str) -> Dump {
     let mut sections: BTreeMap<String, Vec<String>> = BTreeMap::new();
     for s in crate::oracle::dump::SECTIONS {
@@ -76,7 +81,7 @@ impl Property for C11 {
         ]
     }
     fn cases(&self, tier: Tier) -> u32 {
-        tier.pick(1500, 100_000)
+        tier.pick(3000, 100_000)
     }
     fn strategy(&self, tier: Tier) -> BoxedStrategy<Case> {
         (wsgen::workspace(2, tier.pick(6, 8), tier.pick(5, 8)), hist::setup_strategy(), prop_oneof![4 => Just(Cfg::base()), 1 => hist::cfg_strategy()], any::<bool>(), prop_oneof![3 => Just(false), 1 => Just(true)])
@@ -128,7 +133,7 @@ impl Property for C11 {
             };
             if d != first {
                 let diffs = first.diff(&d);
-                return Verdict::fail(format!("nondet:{}", classify(&diffs)), format!("in-process run #{k} differs from run #0 (same files, same registration order):\n{}", render_diffs(&diffs, 12)));
+                return Verdict::fail(nondet_sig(&diffs), format!("in-process run #{k} differs from run #0 (same files, same registration order):\n{}", render_diffs(&diffs, 12)));
             }
         }
         // two separate processes
@@ -147,7 +152,7 @@ impl Property for C11 {
                                 if d != first {
                                     let diffs = first.diff(&d);
                                     return Verdict::fail(
-                                        format!("nondet:{}", classify(&diffs)),
+                                        nondet_sig(&diffs),
                                         format!("worker process #{k} differs from the in-process run (same files, same registration order):\n{}", render_diffs(&diffs, 12)),
                                     );
                                 }
